@@ -121,6 +121,7 @@ def check_geometry(case, ctx: Ctx):
             require(F(cum[i]) == run, "cumulative", f"bin {i}: {cum[i]!r} want {float(run)}")
         if shape[0]:
             require(F(cum[-1]) == F(h.total), "cumulative_end", f"{cum[-1]!r} vs {h.total!r}")
+            require(F(h.total) == run, "total", f"{h.total!r} vs {float(run)}")
         if not model.gaps(pairs[0]):
             f2, e2 = h.numpy_like
             require(np.array_equal(np.asarray(f2), np.asarray(h.frequencies)) and [float(x) for x in e2] == [pairs[0][0][0]] + [p[1] for p in pairs[0]], "numpy_like", "")
@@ -255,6 +256,16 @@ def geometry_cases(draw, tier="quick"):
                 "CylindricalHistogram": lambda: [radial_axis(), angle_axis(TWO_PI), z_axis()],
                 "CylindricalSurfaceHistogram": lambda: [angle_axis(TWO_PI), z_axis()]}[cls]()
     shape = [len(a["pairs"]) for a in axes]
+    if len(axes) == 1 and draw(st.integers(0, 3)) == 0:
+        # a narrow integer type whose bins each fit while the running sum leaves its range
+        dtype = draw(st.sampled_from(["int16", "int16", "int32"]))
+        big = st.sampled_from([12000, 15000, 9000, 20000, 7, 0, 30000]) if dtype == "int16" else st.sampled_from([2 ** 30, 2 ** 30 + 5, 7, 0, 2 ** 31 - 1])
+        freq = hgen.nested(draw, shape, big)
+        err2 = None
+        d = 1
+        spec = {"axes": axes, "dtype": dtype, "freq": freq, "err2": err2, "missed": [0, 0, 0], "keep_missed": True,
+                "meta": draw(hgen.meta(d, rich=False)), "adaptive": False, "class": name}
+        return {"spec": spec, "full": full, "by": "index", "merge_axis": 0, "merge_amount": 1, "select": [0], "select_mask": None}
     freq = hgen.nested(draw, shape, hgen.content_values(dtype))
     err2 = hgen.nested(draw, shape, hgen.content_values(dtype)) if draw(st.booleans()) else None
     d = len(axes)
